@@ -257,7 +257,9 @@ def _elem_taken_by(obj: Optional[ast.expr], subj: Optional[str], k: ast.expr, fn
             return "nonneg@" + kp in st
         for n in ast.walk(fn.node):
             if isinstance(n, ast.Assign) and path_of(n.targets[0]) == path_of(k) and isinstance(n.value, ast.Call):
-                if callee_name(n.value) == "_normalized_index" and n.value.args and path_of(n.value.args[0]) == subj:
+                argp = [path_of(a_) for a_ in n.value.args]
+                if callee_name(n.value) == "_normalized_index" and subj in argp and set(argp) <= {subj, "self.index"}:
+                    # (the normaliser may be a staticmethod that is handed the index as well)
                     return path_of(obj.args[1]) == "self.index"
     return False
 
